@@ -214,6 +214,35 @@ Proof.
   unfold led_by_me in *. rewrite D2, B2. exact F2.
 Qed.
 
+(* leaderCheck on a stale snapshot *)
+Lemma lc1m_is_lc1 : lc1m = lc1.
+Proof. reflexivity. Qed.
+
+Lemma fold_lc2m snap l s :
+  let s' := fold_left (lc2m snap) l s in
+  (own s -> own s') /\ me s' = me s /\ nshards s' = nshards s.
+Proof.
+  revert s; induction l as [|p l IH]; simpl; intros s; [tauto|].
+  destruct (IH (lc2m snap s p)) as (A & B & C).
+  assert (M : me (lc2m snap s p) = me s /\ nshards (lc2m snap s p) = nshards s).
+  { unfold lc2m. destruct (match zlookup (fst p) snap with Some l0 => String.eqb l0 (me s) | None => false end); simpl; tauto. }
+  destruct M as (M1 & M2). rewrite B, C, M1, M2. split; [|tauto].
+  intros Ho. apply A. unfold lc2m.
+  destruct (match zlookup (fst p) snap with Some l0 => String.eqb l0 (me s) | None => false end);
+    [exact Ho|apply lim_stop_own; exact Ho].
+Qed.
+
+Lemma leader_check_snap_props snap s :
+  let s' := leader_check_snap snap s in
+  (own s -> own s') /\ me s' = me s /\ nshards s' = nshards s.
+Proof.
+  unfold leader_check_snap. rewrite lc1m_is_lc1.
+  destruct (fold_lc1 snap s) as (A & B & C & _).
+  set (s1 := fold_left lc1 snap s) in *.
+  destruct (fold_lc2m snap (stores s1) s1) as (A2 & B2 & C2).
+  split; [intros H; apply A2; apply A; exact H|]. split; congruence.
+Qed.
+
 (* ---------- single step ---------- *)
 Lemma step_own s o : own s -> own (fst (step s o)).
 Proof.
@@ -223,6 +252,8 @@ Proof.
   - apply lim_stop_own. destruct (is_leader s sh); [apply (own_meta s); auto|exact H].
   - apply lim_stop_own. destruct (is_leader s sh); [apply (own_meta s); auto|exact H].
   - apply leader_check_props; exact H.
+  - apply leader_check_snap_props. apply lim_stop_own.
+    destruct (is_leader s sh); [apply (own_meta s); auto|exact H].
   - apply handler_own. apply (own_meta s); auto.
   - apply handler_own. apply (own_meta s); auto.
   - destruct (negb (is_leader s (shard_of s u))); [exact H|].
@@ -245,6 +276,8 @@ Proof.
   - destruct (is_leader s sh); simpl; tauto.
   - destruct (is_leader s sh); simpl; tauto.
   - destruct (leader_check_props s) as (_ & A & B & _). tauto.
+  - match goal with |- context [leader_check_snap ?a ?b] => destruct (leader_check_snap_props a b) as (_ & A & B) end.
+    rewrite A, B. destruct (is_leader s sh); simpl; tauto.
   - match goal with |- context [handler ?x ?y] => destruct (handler_meta x y) as (A & B & _) end. simpl in *; tauto.
   - match goal with |- context [handler ?x ?y] => destruct (handler_meta x y) as (A & B & _) end. simpl in *; tauto.
   - destruct (negb (is_leader s (shard_of s u))); [simpl; tauto|].
